@@ -197,6 +197,7 @@ func RunC20(c *Ctx, r *Report) {
 			r.bad(prefix+"encode.modset", c.FuncName(fn), c.Pos(fn.Pos()), "encoding writes "+strings.Join(bad, ", "))
 		}
 	}
+	c.bookkeepingRecomputedRule(r, prefix, escope, allowed)
 	// alias analysis with message memory as source
 	er := c.Alias(&AliasCfg{
 		Scope: escope,
@@ -599,4 +600,149 @@ func allocRoot(a ssa.Value) *ssa.Alloc {
 		}
 	}
 	return nil
+}
+
+// bookkeepingRecomputedRule: the header bookkeeping fields the encoder is allowed to write are derived
+// state (left over from the last Decode or Encode). The encoding is a function of the message only if a
+// function of the encode scope that writes such a field writes it on every path before anything reads it:
+// at every call whose callee (transitively) loads the field, and at every own load, the field has been
+// stored on all paths from the function's entry (forward must-analysis over the CFG).
+func (c *Ctx) bookkeepingRecomputedRule(r *Report, prefix string, escope []*ssa.Function, derived map[string]bool) {
+	rule := prefix + "determinism.bookkeeping-recomputed"
+	r.Rule(rule, "a function of the encode scope that stores a header bookkeeping field (IKEHeader.NextPayload, IKEHeader.PayloadBytes) has stored it on every path before that field is read by itself or by a callee, so that no value left by an earlier Decode/Encode reaches the output", 1)
+	readsMemo := map[*ssa.Function]map[string]bool{}
+	var reads func(fn *ssa.Function) map[string]bool
+	reads = func(fn *ssa.Function) map[string]bool {
+		if m, ok := readsMemo[fn]; ok {
+			return m
+		}
+		m := map[string]bool{}
+		readsMemo[fn] = m
+		for _, g := range c.Reachable(fn) {
+			for _, b := range g.Blocks {
+				for _, ins := range b.Instrs {
+					if u, ok := ins.(*ssa.UnOp); ok && u.Op == token.MUL {
+						if fa, ok := u.X.(*ssa.FieldAddr); ok {
+							if k := FieldKey(fa.X.Type(), fa.Field); derived[k] {
+								m[k] = true
+							}
+						}
+					}
+				}
+			}
+		}
+		return m
+	}
+	for _, fn := range escope {
+		// which derived fields does fn store directly?
+		stores := map[string]bool{}
+		for _, b := range fn.Blocks {
+			for _, ins := range b.Instrs {
+				if st, ok := ins.(*ssa.Store); ok {
+					if fa, ok := st.Addr.(*ssa.FieldAddr); ok {
+						if k := FieldKey(fa.X.Type(), fa.Field); derived[k] {
+							stores[k] = true
+						}
+					}
+				}
+			}
+		}
+		if len(stores) == 0 {
+			continue
+		}
+		// forward must-analysis: set of derived fields stored on all paths to the block entry
+		in := map[*ssa.BasicBlock]map[string]bool{}
+		full := func() map[string]bool {
+			m := map[string]bool{}
+			for k := range stores {
+				m[k] = true
+			}
+			return m
+		}
+		for _, b := range fn.Blocks {
+			in[b] = full()
+		}
+		in[fn.Blocks[0]] = map[string]bool{}
+		transfer := func(b *ssa.BasicBlock, upTo int) map[string]bool {
+			cur := map[string]bool{}
+			for k := range in[b] {
+				cur[k] = true
+			}
+			for i, ins := range b.Instrs {
+				if upTo >= 0 && i >= upTo {
+					break
+				}
+				if st, ok := ins.(*ssa.Store); ok {
+					if fa, ok := st.Addr.(*ssa.FieldAddr); ok {
+						if k := FieldKey(fa.X.Type(), fa.Field); derived[k] {
+							cur[k] = true
+						}
+					}
+				}
+			}
+			return cur
+		}
+		for changed := true; changed; {
+			changed = false
+			for _, b := range fn.Blocks[1:] {
+				var meet map[string]bool
+				for _, p := range b.Preds {
+					out := transfer(p, -1)
+					if meet == nil {
+						meet = out
+						continue
+					}
+					for k := range meet {
+						if !out[k] {
+							delete(meet, k)
+						}
+					}
+				}
+				if meet == nil {
+					meet = map[string]bool{}
+				}
+				if len(meet) != len(in[b]) {
+					in[b] = meet
+					changed = true
+				}
+			}
+		}
+		for _, b := range fn.Blocks {
+			for i, ins := range b.Instrs {
+				var need map[string]bool
+				what := ""
+				switch x := ins.(type) {
+				case *ssa.UnOp:
+					if fa, ok := x.X.(*ssa.FieldAddr); ok && x.Op == token.MUL {
+						if k := FieldKey(fa.X.Type(), fa.Field); stores[k] {
+							need, what = map[string]bool{k: true}, "load of "+strings.TrimPrefix(k, "field:")
+						}
+					}
+				case *ssa.Call:
+					need = map[string]bool{}
+					for _, m := range c.CalleesAt(x).Mod {
+						for k := range reads(m) {
+							if stores[k] {
+								need[k] = true
+							}
+						}
+					}
+					what = c.SrcExpr(x)
+				}
+				if len(need) == 0 {
+					continue
+				}
+				have := transfer(b, i)
+				var missing []string
+				for k := range need {
+					if !have[k] {
+						missing = append(missing, strings.TrimPrefix(k, "field:"))
+					}
+				}
+				sortStrings(missing)
+				key := c.FuncName(fn) + ": " + what
+				r.Check(len(missing) == 0, rule, key, c.InstrPos(ins), "every bookkeeping field read here was stored on all paths from the entry", "on some path "+strings.Join(missing, ", ")+" still holds the value left by an earlier Decode/Encode when it is read here: the output is not a function of the message")
+			}
+		}
+	}
 }
